@@ -45,8 +45,8 @@ Print Assumptions c09_texts.
    accepted into the buffer), the poller loop terminates, and in the state reached the channel is
    never waiting for more bytes than its buffer holds. *)
 Theorem c09_frame_safe :
-  forall (decode : list N -> option msg) (method_kind : list N -> N) (req_ok : list N -> bool)
-         (service : list N -> list N -> option sres)
+  forall (decode : list N -> option msg) (method_kind : N -> list N -> N) (req_ok : N -> list N -> bool)
+         (service : N -> list N -> list N -> option sres)
          (r0 : rpc) (ops : list op) (f : frame) (r : rpc) (tr : list event),
   run decode method_kind req_ok service init_frame r0 ops = (f, r, tr) ->
   (forall off n al bs, In (EvWrite off n al bs) tr -> off + n <= bs /\ bs <= al /\ bs <= 1048576) /\
@@ -60,8 +60,8 @@ Print Assumptions c09_frame_safe.
 (* A complete header that carries a wrong version or a length above 1 MB closes the channel and
    returns it to the header state without touching the buffer, from any receive state. *)
 Theorem c09_reject_closes :
-  forall (decode : list N -> option msg) (method_kind : list N -> N) (req_ok : list N -> bool)
-         (service : list N -> list N -> option sres)
+  forall (decode : list N -> option msg) (method_kind : N -> list N -> N) (req_ok : N -> list N -> bool)
+         (service : N -> list N -> list N -> option sres)
          (ok : bool) (f : frame) (r : rpc) (avail : list N) f' r' rest evs,
   dead r = false -> expected f = 0 ->
   let h := hdr f ++ take (N.min (4 - len (hdr f)) (len avail)) avail in
@@ -80,8 +80,8 @@ Print Assumptions c09_reject_closes.
    headers, skips zero-length frames, and stops (channel closed) at the first wrong version, length
    above 1 MB or undecodable body; an incomplete tail dispatches nothing. *)
 Theorem c09_dispatch :
-  forall (decode : list N -> option msg) (method_kind : list N -> N) (req_ok : list N -> bool)
-         (service : list N -> list N -> option sres)
+  forall (decode : list N -> option msg) (method_kind : N -> list N -> N) (req_ok : N -> list N -> bool)
+         (service : N -> list N -> list N -> option sres)
          (r0 : rpc) (ops : list op) (f : frame) (r : rpc) (tr : list event),
   dead r0 = false -> forallb healthy ops = true ->
   run decode method_kind req_ok service init_frame r0 ops = (f, r, tr) ->
@@ -101,11 +101,11 @@ Print Assumptions c09_dispatch.
    failed / id reused by a newer call) or the outcome of a dispatched response message whose id is the
    call's own id. *)
 Theorem c09_once :
-  forall (decode : list N -> option msg) (method_kind : list N -> N) (req_ok : list N -> bool)
-         (service : list N -> list N -> option sres)
+  forall (decode : list N -> option msg) (method_kind : N -> list N -> N) (req_ok : N -> list N -> bool)
+         (service : N -> list N -> list N -> option sres)
          (s0 : N) (ops : list op) (f : frame) (r : rpc) (tr : list event),
   s0 < 4294967296 ->
-  run decode method_kind req_ok service init_frame (mkRpc false s0 0 [] 0 [] []) ops = (f, r, tr) ->
+  run decode method_kind req_ok service init_frame (mkRpc false s0 0 [] 0 [] [] 0) ops = (f, r, tr) ->
   (forall k, k < ncalls r ->
      (In k (streams tr) /\ cnt k (dones tr) = 0%nat /\ lookup (u32 (s0 + k)) (responses r) <> Some k) \/
      (~ In k (streams tr) /\
@@ -138,7 +138,7 @@ Print Assumptions c09_call_wire.
    between them. *)
 Theorem c09_ids_distinct :
   forall s0 k k', k' < k -> k < k' + 4294967296 -> u32 (s0 + k) <> u32 (s0 + k').
-Proof. exact stream_ids. Qed.
+Proof. exact (stream_ids (fun _ _ => 0) (fun _ _ => true) (fun _ _ _ => None)). Qed.
 Print Assumptions c09_ids_distinct.
 
 (* No cross completion.  In any reachable state, a message can only complete the call whose id it
@@ -146,11 +146,11 @@ Print Assumptions c09_ids_distinct.
    complete a registered call k', then k' = k (fewer than 2^32 calls apart).  Since streaming calls are
    never registered (c09_once), replies to them complete nothing. *)
 Theorem c09_no_cross :
-  forall (decode : list N -> option msg) (method_kind : list N -> N) (req_ok : list N -> bool)
-         (service : list N -> list N -> option sres)
+  forall (decode : list N -> option msg) (method_kind : N -> list N -> N) (req_ok : N -> list N -> bool)
+         (service : N -> list N -> list N -> option sres)
          (s0 : N) (ops : list op) (f : frame) (r : rpc) (tr : list event),
   s0 < 4294967296 ->
-  run decode method_kind req_ok service init_frame (mkRpc false s0 0 [] 0 [] []) ops = (f, r, tr) ->
+  run decode method_kind req_ok service init_frame (mkRpc false s0 0 [] 0 [] [] 0) ops = (f, r, tr) ->
   forall m k k', lookup (m_id m) (responses r) = Some k' -> m_id m = u32 (s0 + k) ->
   k < k' + 4294967296 -> k' < k + 4294967296 -> k' = k.
 Proof. exact no_cross. Qed.
@@ -161,8 +161,8 @@ Print Assumptions c09_no_cross.
    and in any order), every reply-type message the channel writes (RESPONSE, RESPONSE_FAILED,
    RESPONSE_NOT_IMPLEMENTED) carries the id of a REQUEST / STREAM_REQUEST message it was sent. *)
 Theorem c09_reply_ids :
-  forall (decode : list N -> option msg) (method_kind : list N -> N) (req_ok : list N -> bool)
-         (service : list N -> list N -> option sres)
+  forall (decode : list N -> option msg) (method_kind : N -> list N -> N) (req_ok : N -> list N -> bool)
+         (service : N -> list N -> list N -> option sres)
          (r0 : rpc) (ops : list op) (f : frame) (r : rpc) (tr : list event),
   requests r0 = [] ->
   run decode method_kind req_ok service init_frame r0 ops = (f, r, tr) ->
@@ -175,7 +175,7 @@ Print Assumptions c09_reply_ids.
    dispatched in any call state, the call registered under its id (if any) is completed with exactly
    that message's outcome and unregistered; an unknown id changes nothing. *)
 Theorem c09_answer :
-  forall (method_kind : list N -> N) (req_ok : list N -> bool) (service : list N -> list N -> option sres)
+  forall (method_kind : N -> list N -> N) (req_ok : N -> list N -> bool) (service : N -> list N -> list N -> option sres)
          (cl ok : bool) (r : rpc) (m : msg) (o : outcome) (r' : rpc) (evs : list event),
   resp_outcome m = Some o ->
   dispatch method_kind req_ok service cl ok r m = (r', evs) ->
@@ -211,8 +211,8 @@ Proof. exact send_failure. Qed.
 Print Assumptions c09_send_failure.
 
 Theorem c09_dead_stops :
-  forall (decode : list N -> option msg) (method_kind : list N -> N) (req_ok : list N -> bool)
-         (service : list N -> list N -> option sres) (f : frame) (r : rpc) (bs : list N) (ok : bool),
+  forall (decode : list N -> option msg) (method_kind : N -> list N -> N) (req_ok : N -> list N -> bool)
+         (service : N -> list N -> list N -> option sres) (f : frame) (r : rpc) (bs : list N) (ok : bool),
   dead r = true -> step decode method_kind req_ok service f r (OpChunk bs ok) = (f, r, []).
 Proof. exact dead_stops. Qed.
 Print Assumptions c09_dead_stops.
@@ -233,8 +233,8 @@ Print Assumptions c09_send_failed.
    c09_frame_safe (writes; the grow / shrink path of AllocateMsgBuffer is part of the model) this is
    "never reads or writes outside its message buffer" for every byte stream and every chunking. *)
 Theorem c09_reads_safe :
-  forall (decode : list N -> option msg) (method_kind : list N -> N) (req_ok : list N -> bool)
-         (service : list N -> list N -> option sres)
+  forall (decode : list N -> option msg) (method_kind : N -> list N -> N) (req_ok : N -> list N -> bool)
+         (service : N -> list N -> list N -> option sres)
          (r0 : rpc) (ops : list op) (f : frame) (r : rpc) (tr : list event),
   run decode method_kind req_ok service init_frame r0 ops = (f, r, tr) ->
   (forall n al, In (EvParse n al) tr -> n <= al /\ n <= 1048576) /\
@@ -246,8 +246,8 @@ Print Assumptions c09_reads_safe.
    dispatches and completes nothing more, whatever arrives; calls still outstanding stay registered
    (the code never runs their completions: the property speaks of healthy connections only). *)
 Theorem c09_closed_stops :
-  forall (decode : list N -> option msg) (method_kind : list N -> N) (req_ok : list N -> bool)
-         (service : list N -> list N -> option sres) (f : frame) (r : rpc) (bs : list N) (ok : bool),
+  forall (decode : list N -> option msg) (method_kind : N -> list N -> N) (req_ok : N -> list N -> bool)
+         (service : N -> list N -> list N -> option sres) (f : frame) (r : rpc) (bs : list N) (ok : bool),
   closed f = true -> step decode method_kind req_ok service f r (OpChunk bs ok) = (f, r, []).
 Proof. exact closed_stops. Qed.
 Print Assumptions c09_closed_stops.
@@ -259,8 +259,8 @@ Print Assumptions c09_closed_stops.
    handed out are never deleted.  (In the model a request object is deleted only inside the service's
    completion of that request, so it is never deleted while the service still holds it.) *)
 Theorem c09_server_once :
-  forall (decode : list N -> option msg) (method_kind : list N -> N) (req_ok : list N -> bool)
-         (service : list N -> list N -> option sres)
+  forall (decode : list N -> option msg) (method_kind : N -> list N -> N) (req_ok : N -> list N -> bool)
+         (service : N -> list N -> list N -> option sres)
          (r0 : rpc) (ops : list op) (f : frame) (r : rpc) (tr : list event),
   requests r0 = [] -> cancelled r0 = [] -> nreq r0 = 0 ->
   run decode method_kind req_ok service init_frame r0 ops = (f, r, tr) ->
@@ -276,10 +276,10 @@ Print Assumptions c09_server_once.
    is answered by exactly one RESPONSE_NOT_IMPLEMENTED carrying the request's id; nothing else changes
    and the service is not called. *)
 Theorem c09_not_implemented :
-  forall (method_kind : list N -> N) (req_ok : list N -> bool) (service : list N -> list N -> option sres)
+  forall (method_kind : N -> list N -> N) (req_ok : N -> list N -> bool) (service : N -> list N -> list N -> option sres)
          (cl : bool) (r : rpc) (m : msg) (r' : rpc) (evs : list event),
   m_type m = REQUEST \/ m_type m = STREAM_REQUEST ->
-  method_kind (m_name m) = 0 -> dead r || cl = false ->
+  method_kind (svc r) (m_name m) = 0 -> dead r || cl = false ->
   dispatch method_kind req_ok service cl true r m = (r', evs) ->
   evs = [EvSend (mkMsg RESPONSE_NOT_IMPLEMENTED (m_id m) [] [])] /\ r' = r.
 Proof. exact not_implemented. Qed.
@@ -291,13 +291,13 @@ Print Assumptions c09_not_implemented.
    (RESPONSE) or its failure text (RESPONSE_FAILED) is written under the request's id and the request
    object is deleted. *)
 Theorem c09_request_served :
-  forall (method_kind : list N -> N) (req_ok : list N -> bool) (service : list N -> list N -> option sres)
+  forall (method_kind : N -> list N -> N) (req_ok : N -> list N -> bool) (service : N -> list N -> list N -> option sres)
          (cl : bool) (r : rpc) (m : msg) (r' : rpc) (evs : list event) (fr : list N),
   ServerOnce.WR r fr -> m_type m = REQUEST ->
-  method_kind (m_name m) <> 0 -> method_kind (m_name m) <> 3 -> req_ok (m_buf m) = true ->
+  method_kind (svc r) (m_name m) <> 0 -> method_kind (svc r) (m_name m) <> 3 -> req_ok (svc r) (m_buf m) = true ->
   lookup (m_id m) (requests r) = None -> dead r || cl = false ->
   dispatch method_kind req_ok service cl true r m = (r', evs) ->
-  match service (m_name m) (m_buf m) with
+  match service (svc r) (m_name m) (m_buf m) with
   | None =>
     evs = [EvService (m_name m) (m_buf m)] /\
     requests r' = (m_id m, nreq r) :: requests r /\ nreq r' = nreq r + 1
@@ -334,8 +334,8 @@ Print Assumptions c09_complete_reply.
    therefore hold per channel in any process with many connections; the implementation must not share
    receive state (buffer, sizes, header bytes), call tables or sequence numbers between channels. *)
 Theorem c09_channels_independent :
-  forall (decode : list N -> option msg) (method_kind : list N -> N) (req_ok : list N -> bool)
-         (service : list N -> list N -> option sres)
+  forall (decode : list N -> option msg) (method_kind : N -> list N -> N) (req_ok : N -> list N -> bool)
+         (service : N -> list N -> list N -> option sres)
          (ops : list (nat * op)) (s s' : list (frame * rpc)) (tr : list (nat * event))
          (i : nat) (f : frame) (r : rpc),
   mrun decode method_kind req_ok service s ops = (s', tr) -> nth_error s i = Some (f, r) ->
@@ -353,8 +353,8 @@ Print Assumptions c09_channels_independent.
    completion only frees the request) reaches the deleted channel or is attributed to it, and the channel
    is gone (None) exactly if the client hung up.  Composes c09_channels_independent with teardown. *)
 Theorem c09_server_teardown :
-  forall (decode : list N -> option msg) (method_kind : list N -> N) (req_ok : list N -> bool)
-         (service : list N -> list N -> option sres)
+  forall (decode : list N -> option msg) (method_kind : N -> list N -> N) (req_ok : N -> list N -> bool)
+         (service : N -> list N -> list N -> option sres)
          (ops : list sop) (s s' : list (option (frame * rpc))) (tr : list (nat * event))
          (i : nat) (f : frame) (r : rpc),
   srun decode method_kind req_ok service s ops = (s', tr) -> nth_error s i = Some (Some (f, r)) ->
@@ -366,8 +366,8 @@ Print Assumptions c09_server_teardown.
 
 (* a deleted channel stays deleted and silent, whatever is addressed to it afterwards *)
 Theorem c09_deleted_channel_untouched :
-  forall (decode : list N -> option msg) (method_kind : list N -> N) (req_ok : list N -> bool)
-         (service : list N -> list N -> option sres)
+  forall (decode : list N -> option msg) (method_kind : N -> list N -> N) (req_ok : N -> list N -> bool)
+         (service : N -> list N -> list N -> option sres)
          (ops : list sop) (s s' : list (option (frame * rpc))) (tr : list (nat * event)) (i : nat),
   srun decode method_kind req_ok service s ops = (s', tr) -> nth_error s i = Some None ->
   nth_error s' i = Some None /\ proj i tr = [].
@@ -378,7 +378,7 @@ Print Assumptions c09_deleted_channel_untouched.
    and any other value) are counted as received and otherwise ignored: no state change, nothing sent,
    nobody called. *)
 Theorem c09_other_types :
-  forall (method_kind : list N -> N) (req_ok : list N -> bool) (service : list N -> list N -> option sres)
+  forall (method_kind : N -> list N -> N) (req_ok : N -> list N -> bool) (service : N -> list N -> list N -> option sres)
          (cl ok : bool) (r : rpc) (m : msg),
   m_type m <> REQUEST -> m_type m <> RESPONSE -> m_type m <> RESPONSE_CANCEL ->
   m_type m <> RESPONSE_FAILED -> m_type m <> RESPONSE_NOT_IMPLEMENTED -> m_type m <> STREAM_REQUEST ->
@@ -389,9 +389,9 @@ Print Assumptions c09_other_types.
 (* A STREAM_REQUEST naming a method that exists but is not a streaming method (or arriving at a channel
    without a service) is refused: nothing is called, sent or changed. *)
 Theorem c09_stream_request_refused :
-  forall (method_kind : list N -> N) (req_ok : list N -> bool) (service : list N -> list N -> option sres)
+  forall (method_kind : N -> list N -> N) (req_ok : N -> list N -> bool) (service : N -> list N -> list N -> option sres)
          (cl ok : bool) (r : rpc) (m : msg),
-  m_type m = STREAM_REQUEST -> method_kind (m_name m) <> 0 -> method_kind (m_name m) <> 2 ->
+  m_type m = STREAM_REQUEST -> method_kind (svc r) (m_name m) <> 0 -> method_kind (svc r) (m_name m) <> 2 ->
   dispatch method_kind req_ok service cl ok r m = (r, []).
 Proof. exact stream_request_refused. Qed.
 Print Assumptions c09_stream_request_refused.
@@ -401,14 +401,30 @@ Print Assumptions c09_stream_request_refused.
    callback) or for a STREAM_REQUEST to a streaming method (the only path with NULL response / done):
    no other message type or method kind ever reaches the service. *)
 Theorem c09_service_called_only_if :
-  forall (method_kind : list N -> N) (req_ok : list N -> bool) (service : list N -> list N -> option sres)
+  forall (method_kind : N -> list N -> N) (req_ok : N -> list N -> bool) (service : N -> list N -> list N -> option sres)
          (cl ok : bool) (r : rpc) (m : msg) (r' : rpc) (evs : list event) (nm rq : list N),
   dispatch method_kind req_ok service cl ok r m = (r', evs) -> In (EvService nm rq) evs ->
-  nm = m_name m /\ rq = m_buf m /\ req_ok (m_buf m) = true /\
-  ((m_type m = REQUEST /\ method_kind (m_name m) <> 0 /\ method_kind (m_name m) <> 3) \/
-   (m_type m = STREAM_REQUEST /\ method_kind (m_name m) = 2)).
+  nm = m_name m /\ rq = m_buf m /\ req_ok (svc r) (m_buf m) = true /\
+  ((m_type m = REQUEST /\ method_kind (svc r) (m_name m) <> 0 /\ method_kind (svc r) (m_name m) <> 3) \/
+   (m_type m = STREAM_REQUEST /\ method_kind (svc r) (m_name m) = 2)).
 Proof. exact (service_called_only_if (fun _ => None)). Qed.
 Print Assumptions c09_service_called_only_if.
+
+(* SetService (public API) in mid-history only replaces the service: afterwards requests are looked up in,
+   validated by and handed to the NEW service (c09_not_implemented, c09_request_served,
+   c09_service_called_only_if, c09_stream_request_refused are stated in terms of [svc r], the service
+   installed when the message is dispatched); calls, outstanding requests and the receive state are
+   untouched.  All history theorems above quantify over histories containing OpSetService. *)
+Theorem c09_set_service :
+  forall (decode : list N -> option msg) (method_kind : N -> list N -> N) (req_ok : N -> list N -> bool)
+         (service : N -> list N -> list N -> option sres) (f : frame) (r : rpc) (k : N),
+  step decode method_kind req_ok service f r (OpSetService k) = (f, set_svc r k, []) /\
+  svc (set_svc r k) = k /\ dead (set_svc r k) = dead r /\ seq (set_svc r k) = seq r /\
+  ncalls (set_svc r k) = ncalls r /\ responses (set_svc r k) = responses r /\
+  nreq (set_svc r k) = nreq r /\ requests (set_svc r k) = requests r /\
+  cancelled (set_svc r k) = cancelled r.
+Proof. exact set_service. Qed.
+Print Assumptions c09_set_service.
 
 (* The hypotheses are satisfiable and the statements are not vacuous: a concrete history.
    decode: a body is a message of type RESPONSE whose id is its first byte.  Two calls (ids 0, 1), then
@@ -422,7 +438,7 @@ Definition ex_ops : list op :=
 (* calls 0 and 2 are ordinary (ids 0, 2), call 1 is a streaming call (id 1); the peer answers 2, 0, then
    sends a message with the streaming call's id 1 (ignored) and a duplicate of reply 2 (ignored) *)
 Example c09_example :
-  let '(f, r, tr) := run ex_decode (fun _ => 0) (fun _ => true) (fun _ _ => Some (SReply []))
+  let '(f, r, tr) := run ex_decode (fun _ _ => 0) (fun _ _ => true) (fun _ _ _ => Some (SReply []))
                          init_frame init_rpc ex_ops in
   forallb healthy ex_ops = true /\
   dispatched tr = [mkMsg 2 2 [] [2; 9]; mkMsg 2 0 [] [0; 8]; mkMsg 2 1 [] [1; 7]; mkMsg 2 2 [] [2; 6]] /\
@@ -438,7 +454,7 @@ Proof. vm_compute. repeat split; reflexivity. Qed.
 Definition ex_decode_req (b : list N) : option msg :=
   match b with x :: _ => Some (mkMsg REQUEST x [69] b) | [] => None end.
 Example c09_example_server :
-  let '(f, r, tr) := run ex_decode_req (fun _ => 1) (fun _ => true) (fun _ _ => None)
+  let '(f, r, tr) := run ex_decode_req (fun _ _ => 1) (fun _ _ => true) (fun _ _ _ => None)
                          init_frame init_rpc
                          [OpChunk [1; 0; 0; 16; 5] true; OpChunk [1; 0; 0; 16; 5] true;
                           OpComplete 0 (SReply [7]) true; OpComplete 1 (SReply [8]) true] in
@@ -448,7 +464,7 @@ Proof. vm_compute. repeat split; reflexivity. Qed.
 
 (* a wrong-version header after a valid message closes the channel; later bytes are not written anywhere *)
 Example c09_example_reject :
-  let '(f, r, tr) := run ex_decode (fun _ => 0) (fun _ => true) (fun _ _ => Some (SReply []))
+  let '(f, r, tr) := run ex_decode (fun _ _ => 0) (fun _ _ => true) (fun _ _ _ => Some (SReply []))
                          init_frame init_rpc
                          [OpChunk [1; 0; 0; 16; 5] true; OpChunk [96; 234; 0; 32] true; OpChunk [65; 65; 65] true] in
   closed f = true /\ expected f = 0 /\ bufsz f = 2048 /\
@@ -460,7 +476,7 @@ Proof. vm_compute. repeat split; reflexivity. Qed.
 (* serving side with a failing reply write: two requests are readable, the write of the first reply
    fails: the close handler runs once, the second request is never dispatched *)
 Example c09_example_reply_write_fails :
-  let '(f, r, tr) := run ex_decode_req (fun _ => 1) (fun _ => true) (fun _ _ => Some (SReply [7]))
+  let '(f, r, tr) := run ex_decode_req (fun _ _ => 1) (fun _ _ => true) (fun _ _ _ => Some (SReply [7]))
                          init_frame init_rpc
                          [OpChunk [1; 0; 0; 16; 5; 1; 0; 0; 16; 6] false; OpChunk [] false] in
   dispatched tr = [mkMsg REQUEST 5 [69] [5]] /\ sends tr = [] /\ dead r = true /\
@@ -472,13 +488,13 @@ Proof. vm_compute. repeat split; reflexivity. Qed.
    request 0 (id 5) superseded by request 1 (same id) and then completed, request 2 (id 6) outstanding *)
 Example c09_example_WR :
   exists f r tr,
-  run ex_decode_req (fun _ => 1) (fun _ => true) (fun _ _ => None) init_frame init_rpc
+  run ex_decode_req (fun _ _ => 1) (fun _ _ => true) (fun _ _ _ => None) init_frame init_rpc
       [OpChunk [1; 0; 0; 16; 5] true; OpChunk [1; 0; 0; 16; 5; 1; 0; 0; 16; 6] true;
        OpComplete 0 (SReply [7]) true] = (f, r, tr) /\
   requests r = [(6, 2); (5, 1)] /\ cancelled r = [] /\ nreq r = 3 /\ freed tr = [0] /\
   ServerOnce.WR r (freed tr).
 Proof.
-  destruct (run ex_decode_req (fun _ => 1) (fun _ => true) (fun _ _ => None) init_frame init_rpc
+  destruct (run ex_decode_req (fun _ _ => 1) (fun _ _ => true) (fun _ _ _ => None) init_frame init_rpc
       [OpChunk [1; 0; 0; 16; 5] true; OpChunk [1; 0; 0; 16; 5; 1; 0; 0; 16; 6] true;
        OpComplete 0 (SReply [7]) true]) as [[f r] tr] eqn:E.
   exists f, r, tr. split; [reflexivity|].
@@ -490,7 +506,7 @@ Qed.
 
 (* two channels: a frame of channel 0 split over two reads with a whole frame of channel 1 in between *)
 Example c09_example_multi :
-  let '(s, tr) := mrun ex_decode (fun _ => 0) (fun _ => true) (fun _ _ => None)
+  let '(s, tr) := mrun ex_decode (fun _ _ => 0) (fun _ _ => true) (fun _ _ _ => None)
                        [(init_frame, init_rpc); (init_frame, init_rpc)]
                        [(0%nat, OpChunk [2; 0; 0; 16; 9] true); (1%nat, OpChunk [2; 0; 0; 16; 5; 6] true);
                         (0%nat, OpChunk [7] true)] in
@@ -500,10 +516,20 @@ Proof. vm_compute. split; reflexivity. Qed.
 (* a server with two clients: client 0 sends a request and hangs up; the service answers it afterwards
    (nothing happens), client 1 is served as if alone *)
 Example c09_example_server_teardown :
-  let '(s, tr) := srun ex_decode_req (fun _ => 1) (fun _ => true) (fun _ _ => None)
+  let '(s, tr) := srun ex_decode_req (fun _ _ => 1) (fun _ _ => true) (fun _ _ _ => None)
                        [Some (init_frame, init_rpc); Some (init_frame, init_rpc)]
                        [SOp 0 (OpChunk [1; 0; 0; 16; 5] true); SOp 1 (OpChunk [1; 0; 0; 16; 6] true);
                         SHangup 0; SOp 0 (OpComplete 0 (SReply [7]) true); SOp 1 (OpComplete 0 (SReply [8]) true)] in
   nth_error s 0 = Some None /\ sends (proj 0%nat tr) = [] /\
   sends (proj 1%nat tr) = [mkMsg RESPONSE 6 [] [8]].
 Proof. vm_compute. repeat split; reflexivity. Qed.
+
+(* SetService between two requests for the same method name: service 1 does not have it (NOT_IMPLEMENTED),
+   service 2 does and answers *)
+Example c09_example_set_service :
+  let '(f, r, tr) := run ex_decode_req (fun sv _ => if sv =? 2 then 1 else 0) (fun _ _ => true)
+                         (fun _ _ _ => Some (SReply [7]))
+                         init_frame (set_svc init_rpc 1)
+                         [OpChunk [1; 0; 0; 16; 5] true; OpSetService 2; OpChunk [1; 0; 0; 16; 6] true] in
+  sends tr = [mkMsg RESPONSE_NOT_IMPLEMENTED 5 [] []; mkMsg RESPONSE 6 [] [7]] /\ svc r = 2.
+Proof. vm_compute. split; reflexivity. Qed.
